@@ -802,3 +802,60 @@ V("C12", "name-extension-no-prefix", I,
 V("C12", "exe-guess-relative", I,
   ("                    os.path.isabs(exe)\n                    and os.path.isfile(exe)", "                    os.path.isfile(exe)"),
   "fires:C12.R4")
+
+# ----------------------------------------------------------------- C20
+BSD = "psutil/_psbsd.py"
+OSX = "psutil/_psosx.py"
+SUN = "psutil/_pssunos.py"
+AIX = "psutil/_psaix.py"
+WIN = "psutil/_pswindows.py"
+V("C20", "defect-F5-returns", OSX,
+  ("        return _common.pgids(\n            rawtuple[kinfo_proc_map['rgid']],", "        return _common.puids(\n            rawtuple[kinfo_proc_map['rgid']],"),
+  "fires:C20.R4")
+V("C20", "defect-F6-returns", SUN,
+  ("        tty = self._proc_basic_info()[proc_info_map['ttynr']]", "        tty = wrap_exceptions(self._proc_basic_info()[proc_info_map['ttynr']])"),
+  "fires:C20.R3")
+V("C20", "defect-F7-returns", I,
+  ("                    nt = nt._replace(broadcast=broadcast)", "                    nt._replace(broadcast=broadcast)"),
+  "fires:C20.R6")
+V("C20", "osx-decorator-dropped", OSX,
+  ("    @wrap_exceptions\n    def cwd(self):\n        return cext.proc_cwd(self.pid)", "    def cwd(self):\n        return cext.proc_cwd(self.pid)"),
+  "fires:C20.R1")
+V("C20", "bsd-new-native-in-helper", BSD,
+  ("    @wrap_exceptions\n    def name(self):\n        name = self.oneshot()[kinfo_proc_map['name']]",
+   "    def name(self):\n        name = self.oneshot()[kinfo_proc_map['name']]\n        cext.proc_name(self.pid)"),
+  "fires:C20.R1")
+V("C20", "bsd-handler-shadowed", BSD,
+  ("        except ProcessLookupError as err:\n            if is_zombie(pid):\n                raise ZombieProcess(pid, name, ppid) from err\n            raise NoSuchProcess(pid, name) from err\n        except PermissionError as err:\n            raise AccessDenied(pid, name) from err\n        except OSError as err:\n            if pid == 0 and 0 in pids():",
+   "        except PermissionError as err:\n            raise AccessDenied(pid, name) from err\n        except OSError as err:\n            if pid == 0 and 0 in pids():"),
+  "fires:C20.R2")
+V("C20", "osx-zombie-probe-dropped", OSX,
+  ("            if is_zombie(pid):\n                raise ZombieProcess(pid, name, ppid) from err\n            raise NoSuchProcess(pid, name) from err\n        except PermissionError as err:\n            raise AccessDenied(pid, name) from err\n\n    return wrapper",
+   "            raise NoSuchProcess(pid, name) from err\n        except PermissionError as err:\n            raise AccessDenied(pid, name) from err\n\n    return wrapper"),
+  "fires:C20.R2")
+V("C20", "aix-pid0-clause-added", AIX,
+  ("        except PermissionError as err:\n            raise AccessDenied(pid, name) from err\n\n    return wrapper",
+   "        except PermissionError as err:\n            raise AccessDenied(pid, name) from err\n        except OSError as err:\n            raise AccessDenied(pid, name) from err\n\n    return wrapper"),
+  "fires:C20.R2")
+V("C20", "win-convert-loses-esrch", WIN,
+  ("    if isinstance(exc, ProcessLookupError):\n        return NoSuchProcess(pid=pid, name=name)\n    raise exc", "    raise exc"),
+  "fires:C20.R2")
+V("C20", "sunos-wrong-name-in-exc", SUN,
+  ("        pid, ppid, name = self.pid, self._ppid, self._name\n        try:\n            return fun(self, *args, **kwargs)\n        except (FileNotFoundError, ProcessLookupError) as err:",
+   "        pid, ppid, name = self.pid, self._ppid, None\n        try:\n            return fun(self, *args, **kwargs)\n        except (FileNotFoundError, ProcessLookupError) as err:"),
+  "fires:C20.R2")
+V("C20", "osx-map-swapped", OSX,
+  ("    ruid=1,\n    euid=2,", "    euid=1,\n    ruid=2,"), "fires:C20.R5")
+V("C20", "bsd-c-args-swapped", "psutil/arch/bsd/proc.c",
+  ("        kp.ki_rusage.ru_inblock,         // (long) read io count\n        kp.ki_rusage.ru_oublock,         // (long) write io count",
+   "        kp.ki_rusage.ru_oublock,         // (long) write io count\n        kp.ki_rusage.ru_inblock,         // (long) read io count"),
+  "fires:C20.R5")
+V("C20", "win-map-missing-slot", WIN,
+  ("    mem_private=21,\n", ""), "fires:C20.R5")
+V("C20", "sunos-c-format-short", "psutil/_psutil_sunos.c",
+  ("        \"ikkdiiikiiii\",", "        \"ikkdiiikiii\","), "fires:C20.R5")
+V("C20", "rlimit-unavailable-on-freebsd", BSD,
+  ("        def rlimit(self, resource, limits=None):", "        def rlimit_(self, resource, limits=None):"),
+  "fires:C20.R7")
+V("C20", "benign-bsd-map-and-c-consistent", BSD,
+  ("    read_io_count=12,\n    write_io_count=13,", "    read_io_count=12,\n    write_io_count=13,  # unchanged"), "silent")
